@@ -341,6 +341,7 @@ def build_k5(NS, P):
         o.p  # fill the cache of the derived property (a "cached derived value reachable from the receiver")
     if P.get("keyok"):
         o.z = P["i0"] if "i0" in P else 3  # assigned value of an attribute declared invalidated_by x
+        o.dz = 9  # assigned value of an attribute invalidated_by the (unset) attribute src
     return o
 
 
@@ -379,9 +380,23 @@ def k5_ops(NS, opname, P, inplace):
         return Op("update(x)(dep)", lambda o: o.update(x=v, **kw), [v], lambda st: set_state(set_state(st, "x", v), "z", 7), None, inplace)
     if opname == "reset_x_dep":
         return Op("reset_x(dep)", lambda o: o.reset_x(**kw), [], lambda st: set_state(set_state(st, "x", 0), "z", 7), None, inplace)
+
+
+    if opname == "del_src_unset":  # deleting an attribute that has neither value nor default fails (AttributeError)
+
+        def call(o):
+            del o.src
+            return o
+
+        op = Op("del src (unset)", call, [], None, (AttributeError,), True)
+        return op
+    if opname == "reset_src_unset":
+        op = Op("reset_src(_inplace) (unset)", lambda o: o.reset_src(_inplace=True), [], None, (AttributeError,), True)
+        return op
     raise AssertionError(opname)
 
 
+K5_FAIL_OPS = ["del_src_unset", "reset_src_unset"]
 K5_OPS = ["with_pw_str", "with_pw_int", "setattr_pw_str", "update_pw_str", "with_scores", "with_x_dep", "transform_x_dep", "update_x_dep", "reset_x_dep"]
 
 
@@ -534,11 +549,12 @@ def k2_set_ops(opname, P, inplace, conform=True):
 # ---------------------------------------------------------------------------------------------------------------------
 # K4: keyed containers assigned as a whole (pre-built KeyedList / KeyedSet / list values holding ill-typed elements)
 
+K4_DUP_OPS = ["with_item_index_dup", "update_item_dup", "setitem_dup"]
 K4_OPS = ["ctor_items", "setattr_items", "with_items", "update_items", "ctor_bag", "with_bag", "with_lst", "with_item_obj", "with_bag_item_obj"]
 
 
 def build_k4(NS, P):
-    return NS.K4(items=[NS.Item("a", v=P["x0"])], bag=[NS.Item("b", v=P["n0"])], lst=[NS.Item("c")])
+    return NS.K4(items=[NS.Item("a2", v=P["x0"]), NS.Item("b2", v=P["n0"])], bag=[NS.Item("b", v=P["n0"])], lst=[NS.Item("c")])
 
 
 def k4_ops(NS, opname, P, inplace, conform=True):
@@ -574,6 +590,20 @@ def k4_ops(NS, opname, P, inplace, conform=True):
         return _mk("with_bag", lambda o: o.with_bag(val, **kw), [val], inplace, not conform, note=kind)
     if opname == "with_lst":
         return _mk("with_lst", lambda o: o.with_lst(val, **kw), [val], inplace, not conform, note=kind)
+    if opname == "with_item_index_dup":  # replace slot 0 by an item whose key belongs to ANOTHER slot: ValueError
+        dup = NS.Item("b2", v=P["i1"])
+        return _mk("with_item(dup,_index=0)", lambda o: o.with_item(dup, _index=0, **kw), [dup], inplace, True)
+    if opname == "update_item_dup":
+        dup = NS.Item("b2", v=P["i1"])
+        return _mk("update_item(0, dup)", lambda o: o.update_item(0, dup, _by_index=True, **kw), [dup], inplace, True)
+    if opname == "setitem_dup":
+        dup = NS.Item("b2", v=P["i1"])
+
+        def call(o):
+            o.items[0] = dup
+            return o
+
+        return _mk("items[0]=dup", call, [dup], True, True)
     if opname == "with_item_obj":
         x = good if conform else bad
         return _mk("with_item(obj)", lambda o: o.with_item(x, **kw), [x], inplace, not conform)
